@@ -15,7 +15,7 @@ form), together with certificate theorems `… = true := by decide +kernel`:
   gram      every entry of the separable Gram tensor  Σ_i f f · Σ_j w p p  is within eps of the identity for
             all output entries and all input entries of the *resolved block*
   colint    b0·∫Y_(r,l) = δ_(r,l),(0,0) within eps on the resolved block (b0 = the constant (0,0) function)
-  b0sq      b0² lies in the fixed interval that implies |b0²·4π − 1| ≤ 1e-6
+  b0sq      b0² lies in the fixed interval that implies |b0²·4π − 1| ≤ 1e-15 (1e-6 before the interval was tightened)
   const     f[i][0]·p[0][j][0] = b0 exactly on all genuine nodes
   wnonneg   quadrature weights >= 0
   zeros     p[r][j][l] = 0 exactly for l < |m(r)|
